@@ -803,7 +803,10 @@ func (x *Runner) twinEnc(v reflect.Value, validation bool, b []byte, out string)
 		if ex.nilDeref {
 			x.R.Count("validators:nil-deref")
 			if tout == "panic" && out != "panic" {
+				// (defect of the unchanged tree until the fix in callSyntacticValidator: value.Elem() of a nil pointer is
+				// the zero Value, handing it to the validator panicked with "reflect: Call using zero Value argument")
 				x.R.Count("validators:nil-deref-panic")
+				x.twinFail("validator-accepting", "encode-panic-nil-pointer", true, op, "validated Encode of a value holding a nil pointer whose element type has a registered validator panics (the API without validators answers %s)", out)
 			}
 		}
 		// a nil pointer whose element type has a validator makes the lookup panic where the plain API reports an
